@@ -13,7 +13,7 @@ From Anthem Require Import Base.ISet Syntax.Fol Syntax.Asp Sem.Domain Sem.Sat Se
   Proofs.ExtendAll Proofs.SemBase Proofs.DecomposeOk Proofs.StrongOk Proofs.ExternalOk Proofs.AssemblyOk
   Proofs.RenameOk Proofs.C19Ext Proofs.C02Ok
   Proofs.TauStarClassical Proofs.CompletionShape Proofs.CompletionOk Proofs.FagesBridge Proofs.FagesTauStar
-  Proofs.PlaceholderOk Proofs.StrategyClsOk Proofs.SimplFull.
+  Proofs.PlaceholderOk Proofs.StrategyClsOk Proofs.SimplFull Proofs.MissingOutputs.
 Import ListNotations.
 Open Scope string_scope.
 Open Scope list_scope.
@@ -50,13 +50,6 @@ Definition restrict (S : list pred) (M : pint) : pint :=
 Lemma pagree_restrict S S' M : incl S' S -> pagree S' M (restrict S M).
 Proof. intros Hi p a Hin. unfold restrict. split; [intros H; split; auto|intros [H _]; exact H]. Qed.
 
-Lemma definition_predicates f F p V : definition_of f F p V -> incl (predicates F) (predicates f).
-Proof.
-  intros [_ [Hi _]] q Hq.
-  assert (Hs : In q (predicates (strip f))).
-  { destruct Hi as [E|E]; rewrite E; cbn [predicates]; apply (in_iset_extend pred_dec); auto. }
-  destruct f as [| | |[] vs g]; exact Hs.
-Qed.
 Lemma in_theory_preds (G : theory) f q : In f G -> In q (predicates f) -> In q (theory_predicates G).
 Proof. intros Hf Hq. apply in_theory_predicates. eauto. Qed.
 
@@ -104,10 +97,12 @@ Definition ext_stable_full (t : ext_task) (FI : fint) (M : pint) (P : program) :
          (ph_program FI (task_placeholders t) P)
          (input_facts (restrict (ext_voc t P) M) (task_inputs t)).
 
-(* the class outside which the emitted problems speak about the whole public vocabulary: every
-   output predicate declared in the user guide occurs in the program (completion.rs completes only
-   predicates that occur in the theory, so a missing output predicate gets NO completed definition
-   `forall X (p(X) <-> #false)` on that side) *)
+(* every output predicate declared in the user guide occurs in the program.  Until /repo <COMMIT-F17>
+   this was a class premise of the theorems below (completion.rs completes only predicates that
+   occur in the theory, so a missing output predicate got NO completed definition on that side:
+   finding F17).  Since the repair `theory_translate` appends `forall X (p(X) <-> #false)` for
+   every missing output predicate and the premise is gone; the predicate is kept as a description
+   of the former class (Properties/C02full.v: the regression Example on t17). *)
 Definition outputs_occur_in (t : ext_task) (P : program) : Prop :=
   incl (ug_output_predicates (et_user_guide t)) (program_preds P).
 Definition outputs_occur_inb (t : ext_task) (P : program) : bool :=
@@ -129,42 +124,55 @@ Proof.
   destruct (et_specification t); [rewrite <- outputs_occur_inb_spec|]; intuition.
 Qed.
 
+(* ---------- a stable model is empty on predicates that head no rule and are not facts ---------- *)
+Lemma bformula_sat_mono H T sg b : sub H T -> bformula_sat H T sg b -> bformula_sat T T sg b.
+Proof.
+  intros Hs. destruct b as [[[| |] a]|c]; cbn; auto.
+  intros [vs [Hv Hh]]. exists vs. split; [exact Hv|apply Hs; exact Hh].
+Qed.
+Lemma body_sat_mono H T sg b : sub H T -> body_sat H T sg b -> body_sat T T sg b.
+Proof. intros Hs Hb. unfold body_sat in *. eapply Forall_impl; [|exact Hb]. intros x. apply bformula_sat_mono, Hs. Qed.
+
+Theorem stable_nonhead_empty (T : pint) (P : program) (F : pint) (p : string) (a : list gval) :
+  stable T P F ->
+  (forall r, In r P -> head_pred (rhead r) <> Some (mkpred p (List.length a))) ->
+  ~ F p a -> ~ T p a.
+Proof.
+  intros [[HTT HF] Hmin] Hnh HnF HT.
+  set (H := fun p' a' => T p' a' /\ ~ (p' = p /\ a' = a)).
+  assert (Hsub : sub H T) by (intros p' a' [Hx _]; exact Hx).
+  assert (Hx : H p a); [|destruct Hx as [_ Hx]; apply Hx; auto].
+  apply (Hmin H Hsub); [| |exact HT].
+  - intros r Hr sg. split; [|exact (proj2 (HTT r Hr sg))].
+    intros Hb. apply (body_sat_mono H T sg _ Hsub) in Hb. pose proof (proj2 (HTT r Hr sg) Hb) as Hh.
+    specialize (Hnh r Hr). destruct (rhead r) as [a0|a0|]; cbn in *; [| |exact Hh].
+    + intros vs Hv. split; [apply Hh; exact Hv|]. intros [E1 E2]. apply Hnh. unfold atom_pred.
+      rewrite E1, <- E2, (tuple_vals_length _ _ _ Hv). reflexivity.
+    + intros vs Hv. destruct (Hh vs Hv) as [Hw|Hw]; [left|right; exact Hw].
+      split; [exact Hw|]. intros [E1 E2]. apply Hnh. unfold atom_pred.
+      rewrite E1, <- E2, (tuple_vals_length _ _ _ Hv). reflexivity.
+  - intros p' a' Hf. split; [apply HF; exact Hf|]. intros [-> ->]. exact (HnF Hf).
+Qed.
+
+(* for external stable models: a public predicate that is neither an input nor the head of a rule
+   of P - e.g. an output predicate that does not occur in P - is empty *)
+Theorem ext_stable_nonhead_empty (t : ext_task) (FI : fint) (N : pint) (P : program) (q : pred) :
+  ext_stable_full t FI N P ->
+  (forall r, In r P -> head_pred (rhead r) <> Some q) -> ~ In q (task_inputs t) ->
+  In q (ext_voc t P) ->
+  forall d, List.length d = parity q -> ~ N (psym q) d.
+Proof.
+  intros Hst Hnh Hni Hv d Hd HN. destruct q as [p n]. cbn in *. subst n.
+  apply (stable_nonhead_empty _ _ _ p d Hst).
+  - intros r' Hr' Hh. destruct (ph_in_heads FI _ P r' _ Hr' Hh) as [r [Hr Hh']]. exact (Hnh r Hr Hh').
+  - intros [_ Hin]. exact (Hni Hin).
+  - split; [exact HN|exact Hv].
+Qed.
+
 Section Full.
 Variable fuel : nat.
 Notation translate := (theory_translate tau_star_total completion (simp_classic_total fuel)).
 
-Theorem translate_meaning_full t P G th :
-  is_tight P = true ->
-  (forall r h, In r P -> head_pred (rhead r) = Some h -> ~ In h (task_inputs t)) ->
-  outputs_occur_in t P ->
-  TauStar.tau_star P = Some G ->
-  translate t (task_placeholders t) P = Some th ->
-  forall FI M, tvalid FI M th <-> ext_stable_full t FI M P.
-Proof.
-  intros Ht Hins Hout Hts Htr FI M. unfold theory_translate, tau_star_total in Htr. rewrite Hts in Htr.
-  fold (task_inputs t) in Htr.
-  destruct (completion (rp_theory (task_placeholders t) G) (task_inputs t)) as [D|] eqn:HD; [|discriminate].
-  assert (E1 : tvalid FI M th <-> (forall f, In f D -> cvalid FI M f)).
-  { injection Htr as <-. unfold tvalid. destruct (et_simplify t); [apply simp_theory_sound|tauto]. }
-  rewrite E1. clear E1 Htr th.
-  set (m := task_placeholders t) in *. set (S := ext_voc t P).
-  assert (Hincl : incl (theory_predicates (rp_theory m G)) S).
-  { intros q Hq. rewrite rp_theory_predicates in Hq. apply (tau_star_predicates P G q Hts) in Hq.
-    unfold S, ext_voc. apply in_or_app. left; exact Hq. }
-  rewrite (completion_restrict _ _ _ FI M S HD Hincl).
-  unfold ext_stable_full. fold m. fold S.
-  apply (C04_fages_partial_proof (ph_program FI m P) (rp_theory m G) (task_inputs t) D FI (restrict S M)).
-  - apply rp_tau_star_represents. exact Hts.
-  - rewrite ph_is_tight. exact Ht.
-  - intros r' h Hr' Hh. destruct (ph_in_heads FI m P r' h Hr' Hh) as [r [Hr Hh']]. eapply Hins; eauto.
-  - exact HD.
-  - intros p d [_ Hin]. unfold S, ext_voc in Hin. apply in_app_or in Hin. rewrite ph_program_preds.
-    destruct Hin as [Hin|Hin]; [left; exact Hin|].
-    unfold ug_public_predicates in Hin. apply in_iset_extend in Hin. destruct Hin as [Hin|Hin]; [right; exact Hin|].
-    left. apply Hout. exact Hin.
-Qed.
-
-(* ---------- what an accepted task guarantees ---------- *)
 Lemma is_nil_inter_spec (a b : list pred) : is_nil (iset_inter pred_dec a b) = true -> forall x, In x a -> ~ In x b.
 Proof.
   unfold iset_inter. intros H x Ha Hb.
@@ -172,6 +180,102 @@ Proof.
   { apply filter_In. split; [exact Ha|]. destruct (memb_spec pred_dec x b); [reflexivity|contradiction]. }
   destruct (filter _ a); [destruct Hin|discriminate].
 Qed.
+(* the two lists of the (disjoint) public declarations *)
+Definition io_disjoint (t : ext_task) : Prop :=
+  forall q, In q (ug_input_predicates (et_user_guide t)) -> ~ In q (ug_output_predicates (et_user_guide t)).
+Lemma c_io_disjoint_spec t : c_io_disjoint t = true -> io_disjoint t.
+Proof. unfold c_io_disjoint. intros H q. apply (is_nil_inter_spec _ _ H). Qed.
+
+(* an output predicate is missing from the completed theory iff it is missing from the program *)
+Lemma output_in_completion t P G D q :
+  io_disjoint t -> TauStar.tau_star P = Some G ->
+  completion (rp_theory (task_placeholders t) G) (task_inputs t) = Some D ->
+  In q (ug_output_predicates (et_user_guide t)) ->
+  (In q (theory_predicates D) <-> In q (program_preds P)).
+Proof.
+  intros Hio Hts HD Hq. rewrite <- (tau_star_predicates P G q Hts), <- (rp_theory_predicates (task_placeholders t) G).
+  split.
+  - apply (completion_predicates_incl _ _ _ HD).
+  - intros Hin. apply (completion_predicates_defined _ _ _ q HD Hin). intros Hi. exact (Hio q Hi Hq).
+Qed.
+
+Corollary output_in_completion_validated t P G D q :
+  c_io_disjoint t = true -> TauStar.tau_star P = Some G ->
+  completion (rp_theory (task_placeholders t) G) (task_inputs t) = Some D ->
+  In q (ug_output_predicates (et_user_guide t)) ->
+  (In q (theory_predicates D) <-> In q (program_preds P)).
+Proof. intros H. apply output_in_completion, c_io_disjoint_spec, H. Qed.
+
+Theorem translate_meaning_full t P G th :
+  is_tight P = true ->
+  (forall r h, In r P -> head_pred (rhead r) = Some h -> ~ In h (task_inputs t)) ->
+  c_io_disjoint t = true ->
+  TauStar.tau_star P = Some G ->
+  translate t (task_placeholders t) P = Some th ->
+  forall FI M, tvalid FI M th <-> ext_stable_full t FI M P.
+Proof.
+  intros Ht Hins Hio Hts Htr FI M. apply c_io_disjoint_spec in Hio.
+  unfold theory_translate, tau_star_total in Htr. rewrite Hts in Htr.
+  fold (task_inputs t) in Htr.
+  destruct (completion (rp_theory (task_placeholders t) G) (task_inputs t)) as [D|] eqn:HD; [|discriminate].
+  cbv zeta in Htr.
+  set (outs := ug_output_predicates (et_user_guide t)) in *.
+  assert (E1 : tvalid FI M th <-> (forall f, In f (D ++ missing_output_definitions outs D) -> cvalid FI M f)).
+  { injection Htr as <-. unfold tvalid. destruct (et_simplify t); [apply simp_theory_sound|tauto]. }
+  rewrite E1. clear E1 Htr th.
+  assert (E2 : (forall f, In f (D ++ missing_output_definitions outs D) -> cvalid FI M f) <->
+               (forall f, In f D -> cvalid FI M f) /\
+               (forall q, In q outs -> ~ In q (program_preds P) -> forall d, List.length d = parity q -> ~ M (psym q) d)).
+  { pose proof (missing_outputs_valid FI M outs D) as Hmv.
+    assert (Hq : forall q, In q outs -> (~ In q (theory_predicates D) <-> ~ In q (program_preds P))).
+    { intros q Hq. rewrite (output_in_completion t P G D q Hio Hts HD Hq). tauto. }
+    split.
+    - intros H. split.
+      + intros f Hf. apply H, in_or_app. auto.
+      + intros q Hq' Hn. apply (proj1 Hmv); [|exact Hq'|apply (Hq q Hq'); exact Hn].
+        intros f Hf. apply H, in_or_app. auto.
+    - intros [H1 H2] f Hf. apply in_app_or in Hf. destruct Hf as [Hf|Hf]; [auto|].
+      revert f Hf. apply (proj2 Hmv). intros q Hq' Hn. apply H2; [exact Hq'|apply (Hq q Hq'); exact Hn]. }
+  rewrite E2. clear E2.
+  set (m := task_placeholders t) in *. set (S := ext_voc t P).
+  assert (Hincl : incl (theory_predicates (rp_theory m G)) S).
+  { intros q Hq. rewrite rp_theory_predicates in Hq. apply (tau_star_predicates P G q Hts) in Hq.
+    unfold S, ext_voc. apply in_or_app. left; exact Hq. }
+  rewrite (completion_restrict _ _ _ FI M S HD Hincl).
+  unfold ext_stable_full. fold m. fold S.
+  (* the interpretation is confined to the program's predicates and the inputs as soon as it is
+     empty on the missing output predicates *)
+  assert (Hconf : (forall q, In q outs -> ~ In q (program_preds P) -> forall d, List.length d = parity q -> ~ M (psym q) d) ->
+                  forall p d, restrict S M p d ->
+                    In (mkpred p (List.length d)) (program_preds (ph_program FI m P)) \/ In (mkpred p (List.length d)) (task_inputs t)).
+  { intros He p d [HM Hin]. unfold S, ext_voc in Hin. apply in_app_or in Hin. rewrite ph_program_preds.
+    destruct Hin as [Hin|Hin]; [left; exact Hin|].
+    unfold ug_public_predicates in Hin. apply in_iset_extend in Hin. destruct Hin as [Hin|Hin]; [right; exact Hin|].
+    destruct (in_dec pred_dec (mkpred p (List.length d)) (program_preds P)) as [Hp|Hp]; [left; exact Hp|].
+    exfalso. exact (He _ Hin Hp d eq_refl HM). }
+  assert (Hfages : (forall p d, restrict S M p d ->
+                      In (mkpred p (List.length d)) (program_preds (ph_program FI m P)) \/ In (mkpred p (List.length d)) (task_inputs t)) ->
+                   ((forall f, In f D -> cvalid FI (restrict S M) f) <->
+                    stable (restrict S M) (ph_program FI m P) (input_facts (restrict S M) (task_inputs t)))).
+  { intros Hvoc.
+    apply (C04_fages_partial_proof (ph_program FI m P) (rp_theory m G) (task_inputs t) D FI (restrict S M)).
+    - apply rp_tau_star_represents. exact Hts.
+    - rewrite ph_is_tight. exact Ht.
+    - intros r' h Hr' Hh. destruct (ph_in_heads FI m P r' h Hr' Hh) as [r [Hr Hh']]. eapply Hins; eauto.
+    - exact HD.
+    - exact Hvoc. }
+  split.
+  - intros [HDv He]. apply (Hfages (Hconf He)). exact HDv.
+  - intros Hst.
+    assert (He : forall q, In q outs -> ~ In q (program_preds P) -> forall d, List.length d = parity q -> ~ M (psym q) d).
+    { intros q Hq Hn. apply (ext_stable_nonhead_empty t FI M P q Hst).
+      - intros r Hr Hh. apply Hn. apply in_program_preds. exists r. split; [exact Hr|]. apply in_rule_preds. left. exact Hh.
+      - intros Hi. exact (Hio q Hi Hq).
+      - unfold ext_voc. apply in_or_app. right. unfold ug_public_predicates. apply in_iset_extend. right. exact Hq. }
+    split; [|exact He]. apply (Hfages (Hconf He)). exact Hst.
+Qed.
+
+(* ---------- what an accepted task guarantees ---------- *)
 Lemma in_program_head_preds P : forall r h, In r P -> head_pred (rhead r) = Some h -> In h (program_head_preds P).
 Proof.
   unfold program_head_preds.
@@ -227,7 +331,6 @@ Theorem C02_full_proof t L w pbs lft rgt :
   external_decompose_full fuel t = XOk w pbs ->
   is_tight L = true -> is_tight (et_program t) = true ->
   tl t L = Some lft -> tr t = Some rgt ->
-  outputs_occur t ->
   (forall vt, task_validated tau_star_total completion (simp_classic_total fuel) t = Some vt -> validated_no_clash vt) ->
   forall FI M,
     tvalid FI M (map (fun a => rp_formula (task_placeholders t) (an_formula a)) (filter is_assumption (ug_formulas (et_user_guide t)))) ->
@@ -238,10 +341,10 @@ Theorem C02_full_proof t L w pbs lft rgt :
      (dir_backward (et_direction t) = true /\
       ext_stable_full t FI (reindex (task_mapping t) M) (et_program t) /\ ~ ext_stable_full t FI M L)).
 Proof.
-  intros Hs Ho Hfull HtL HtR El Er [HoL HoR] Hn FI M Hug Hal Har. rewrite Hs in HoL.
+  intros Hs Ho Hfull HtL HtR El Er Hn FI M Hug Hal Har.
   destruct (full_ok_inv t w pbs Hfull) as [[w0 Hv] [Hd [[GR HGR] HGL]]].
   destruct (HGL L Hs) as [GL HGL'].
-  destruct (validate_conditions _ _ t w0 Hv) as [_ [_ [Hhead _]]].
+  destruct (validate_conditions _ _ t w0 Hv) as [_ [_ [Hhead [Hio _]]]].
   unfold c_no_input_in_head in Hhead. rewrite Hs in Hhead. apply andb_true_iff in Hhead. destruct Hhead as [HhR HhL].
   (* C02_partial with ext_stable := validity of the translated theory, then layer (c) on both sides *)
   set (es := fun (t : ext_task) (FI : fint) (M : pint) (P : program) =>
@@ -254,10 +357,10 @@ Proof.
   unfold task_left in El. destruct (translate t (task_placeholders t) L) as [thl|] eqn:Etl; [|discriminate].
   unfold task_right in Er. destruct (translate t (task_placeholders t) (et_program t)) as [thr|] eqn:Etr; [|discriminate].
   assert (EL : forall M0, es t FI M0 L <-> ext_stable_full t FI M0 L).
-  { intros M0. unfold es. rewrite Etl. apply (translate_meaning_full t L GL thl HtL (no_input_in_head t L HhL) HoL HGL' Etl). }
+  { intros M0. unfold es. rewrite Etl. apply (translate_meaning_full t L GL thl HtL (no_input_in_head t L HhL) Hio HGL' Etl). }
   assert (ER : forall M0, es t FI M0 (et_program t) <-> ext_stable_full t FI M0 (et_program t)).
   { intros M0. unfold es. rewrite Etr.
-    apply (translate_meaning_full t (et_program t) GR thr HtR (no_input_in_head t _ HhR) HoR HGR Etr). }
+    apply (translate_meaning_full t (et_program t) GR thr HtR (no_input_in_head t _ HhR) Hio HGR Etr). }
   rewrite !EL, !ER. reflexivity.
 Qed.
 
